@@ -255,7 +255,7 @@ pub fn c05_features(ctx: &Ctx, ws0: &WorkspaceSpec, names: usize, info: &mut Cas
     // a second, parameterless probe so that completion offers every visible name
     for f in ws.files.iter_mut() {
         if is_project(&f.loc) {
-            f.items.push(Item::Test(TestSpec { suffix: 98, params: vec![], usefixtures: vec![], indirect: vec![], is_async: false, body_uses: vec![] }));
+            f.items.push(Item::Test(TestSpec { suffix: 98, params: vec![], usefixtures: vec![], indirect: vec![], is_async: false, body_uses: vec![], defaulted: vec![] }));
         }
     }
     let mut p = match Pair::start(&ws, true) {
